@@ -169,8 +169,17 @@ def _check(ld, prog, m, B, node, lib_log, ref_log, case, lo, res):
         for st, ids in per_stage(dl).items():
             drained[st] = ids * mult
 
+    names_ = [op[0] for op in prog['ops']]
+    first_buf = min([i for i, nme in enumerate(names_)
+                     if nme in ('prefetch1', 'parmap', 'prefetcht')] or [10 ** 6])
+    # a buffering stage that feeds one branch of a later intersperse / zip /
+    # concatenate advances with its branch, not with the top-level result
+    # count: only the drained bound applies there
+    branchy = any(nme in ('intersperse', 'zip', 'key_zip', 'concat', 'tile')
+                  for nme in names_[first_buf + 1:])
+
     def widen(upper, k):
-        if not drained or k + B.lookahead < len(ref_marks) - 1:
+        if not drained or (k + B.lookahead < len(ref_marks) - 1 and not branchy):
             return upper
         out = dict(upper)
         for st, ids in drained.items():
@@ -198,8 +207,8 @@ def _check(ld, prog, m, B, node, lib_log, ref_log, case, lo, res):
             lib = per_stage(lib_log)
             called += len(lib_log)
             lower, upper = ref_at(k), widen(ref_at(k + B.lookahead), k)
-            widened = upper is not ref_at and drained and \
-                k + B.lookahead >= len(ref_marks) - 1
+            widened = bool(drained) and (branchy or
+                                         k + B.lookahead >= len(ref_marks) - 1)
             sig = {'last_op': lo, 'buffered': B.lookahead > 0}
             for st in set(lib) | set(lower):
                 a = lib.get(st, [])
